@@ -315,7 +315,7 @@ PROPS = {
     "C04": {
         "level": "proof",
         "level_prefix": "Partial proof -- contracts discharged without bound on the mechanisms named below, not the whole statement (bounded stand-ins and what is left out are listed): ",
-        "units": ["nameorder", "nsec3order", "rdbin", "rdnames", "namehash", "charstr"],
+        "units": ["nameorder", "nsec3order", "rdbin", "rdnames", "namehash", "charstr", "nameparse"],
         "vx_search": {"bin": "c04_search_small_values", "crate": "replay", "release": True,
                       "what": "about 15000 pairs/triples of small names (57 names of up to two labels over a,A,b,[,NUL,ab,aB) and of small "
                               "Nsec, Nsec3, Nsec3param, Rrsig, Dnskey, Ds, Zonemd, Svcb, Mx, Srv and unknown record data values, checked "
@@ -363,7 +363,7 @@ PROPS = {
             {"bin": "d26_allrecorddata_eq_not_reflexive", "finding": "D26"},
             {"bin": "d27_zonerecorddata_cross_variant_order", "finding": "D27", "expect": "fail"},
         ],
-        "explanation": "Names (Verus unit nameorder, real text of the provided methods of ToName in base/name/traits.rs, for every "
+        "explanation": "Independence of representation for names inside messages rests on what ParsedName::parse_ref records about a name: unit nameparse (C01/C03: the `compressed` flag is cleared only for names whose octets are flat, which is what as_flat_slice -- and through it name_eq, compose and the hash -- trusts) also runs here (seed C04-11). Names (Verus unit nameorder, real text of the provided methods of ToName in base/name/traits.rs, for every "
                        "implementor, i.e. every representation -- flat, compressed ParsedName, chain): name_eq == label-wise equality "
                        "up to ASCII case on both of its paths (lemma: comparing flat wire forms octet by octet up to case decides "
                        "exactly that, because length octets are below the letters); name_cmp == the RFC 4034 section 6.1 order "
@@ -618,7 +618,7 @@ PROPS = {
     "C12": {
         "level": "proof",
         "level_prefix": "Partial proof -- contracts discharged without bound on the mechanisms named below, not the whole statement (bounded stand-ins and what is left out are listed): ",
-        "units": ["rrsigdata", "nameorder", "keytag"],
+        "units": ["rrsigdata", "nameorder", "keytag", "nameparse"],
         "extra_searches": [
             {"bin": "c12_search_rsa_keys", "crate": "replay_sign", "release": True,
              "what": "RSA keys: crypto::common::rsa_exponent_modulus (through which every RSA DNSKEY reaches the verifier) against RFC 3110 section 2 "
@@ -648,7 +648,7 @@ PROPS = {
              "what": "ToName::rrsig_label_count on the compiled code: labels without the root and without a LEFTMOST asterisk label "
                      "only (RFC 4034 3.1.3) -- the compiled counterpart of the contract in unit nameorder"},
         ],
-        "explanation": "the signed octets, on both sides, against one RFC 4034 3.1.8.1 spec function (unit rrsigdata, real text, no bound): "
+        "explanation": "The validator reconstructs the signed owner through ParsedName::as_flat_slice / to_cow in the wildcard branch of signed_data: unit nameparse (the `compressed` flag is cleared only for names whose octets are flat) also runs here (seed C12-13). the signed octets, on both sides, against one RFC 4034 3.1.8.1 spec function (unit rrsigdata, real text, no bound): "
                        "the signer's sign_sorted_rrset_in returns an RRSIG whose fields are the RFC 4034 3.1 fields (type covered, algorithm of "
                        "the key, Labels per 3.1.3, original TTL = TTL of the RRset, expiration and inception in that order, key tag of the "
                        "signing key, signer name = owner of the key), placed at the RRset's owner, class and TTL, whose signature is the key "
